@@ -4,9 +4,10 @@
 // text (internal/bip39ref: bit strings, own word-list copy, own PBKDF2, own white-space splitter)
 // and (b) the primitive table the Coq model needs (SHA-256 digests, PBKDF2 outputs, NFKD forms).
 //
-//   E <kind> <entropy hex> <tbl> <NewMnemonic> <ref encode>
-//   D <kind> <sentence hex> <passphrase hex> <tbl> <EntropyFromMnemonic> <MnemonicToByteArray>
-//     <MnemonicToByteArray raw> <IsMnemonicValid> <NewSeedWithErrorChecking> <NewSeed> <ref decode> <ref seed>
+//	E <kind> <entropy hex> <tbl> <NewMnemonic> <ref encode>
+//	D <kind> <sentence hex> <passphrase hex> <tbl> <EntropyFromMnemonic> <MnemonicToByteArray>
+//	  <MnemonicToByteArray raw> <IsMnemonicValid> <NewSeedWithErrorChecking> <NewSeed> <ref decode> <ref seed>
+//
 // results: "ok <hex>" | "err" | "panic" | "true"/"false" | "-" (not evaluated)
 // tbl: comma separated h:<in>:<sha256>  k:<password>:<salt>:<pbkdf2>  n:<in>:<nfkd>   ("-" if empty)
 package main
@@ -21,8 +22,8 @@ import (
 	"os"
 	"strings"
 
-	"golang.org/x/crypto/pbkdf2"
 	"crypto/sha512"
+	"golang.org/x/crypto/pbkdf2"
 
 	"massnet.org/mass-wallet/masswallet/keystore"
 	"massnet.org/mass-wallet/masswallet/keystore/wordlists"
@@ -124,8 +125,8 @@ func decodeCase(kind, s, pass string, seeds bool) {
 		tblString(tbl), efm, mtba, mtbaRaw, valid, seedchk, seed, odec, oseed)
 }
 
-var spaces = []string{"  ", "\t", "\n", " \t ", "\r\n", "\v", "\f", "\u00a0", "\u0085", "\u1680", "\u2000", "\u2003", "\u2009",
-	"\u200a", "\u2028", "\u2029", "\u202f", "\u205f", "\u3000", " \u3000 "}
+var spaces = []string{"  ", "\t", "\n", " \t ", "\r\n", "\v", "\f", "\u00a0", "\u0085", "\u1680", "\u2000", "\u2001", "\u2002", "\u2003", "\u2004", "\u2005",
+	"\u2006", "\u2007", "\u2008", "\u2009", "\u200a", "\u2028", "\u2029", "\u202f", "\u205f", "\u3000", " \u3000 "}
 
 // separators that look like spaces but are not Unicode White_Space, or are broken UTF-8
 var notSpaces = []string{"\u200b", "\u180e", "\ufeff", "\x00", "\x1c", "\x1f", "\xa0", "\x85", "\xc2", "\xe2\x80", "\xe3\x80",
